@@ -180,7 +180,7 @@ Proof. intros H Ha Hb. rewrite (peers_stable init lg i a H Ha), (peers_stable in
 
 (* ---- members: received <= log, applied <= received, pinset = replay of the applied prefix ---- *)
 Definition member_ok (lg : list mentry) (m : member) : Prop :=
-  (m_applied m <= m_recv m)%nat /\ (m_recv m <= length lg)%nat /\ m_st m = state_at lg (m_applied m).
+  (m_applied m <= m_queued m)%nat /\ (m_queued m <= m_recv m)%nat /\ (m_recv m <= length lg)%nat /\ m_st m = state_at lg (m_applied m).
 
 Lemma state_at_app lg x j : (j <= length lg)%nat -> state_at (lg ++ [x]) j = state_at lg j.
 Proof. intros H. unfold state_at. now rewrite firstn_app_le. Qed.
@@ -205,19 +205,21 @@ Qed.
 
 Lemma cstep_ok cl e : Forall (member_ok (mlog cl)) (members cl) -> Forall (member_ok (mlog (cstep cl e))) (members (cstep cl e)).
 Proof.
-  intros H. destruct e as [x|n|n|n j|n]; simpl.
-  - eapply Forall_impl; [|exact H]. intros m [H1 [H2 H3]]. repeat split; auto.
+  intros H. destruct e as [x|n|n|n|n j|n]; simpl.
+  - eapply Forall_impl; [|exact H]. intros m [G0 [G1 [G2 G3]]]. repeat split; auto.
     + rewrite app_length. simpl. lia.
-    + rewrite state_at_app by lia. exact H3.
-  - apply Forall_mupd; auto. intros m [H1 [H2 H3]].
+    + rewrite state_at_app by lia. exact G3.
+  - apply Forall_mupd; auto. intros m [G0 [G1 [G2 G3]]].
     destruct (Nat.ltb_spec (m_recv m) (length (mlog cl))); repeat split; simpl; auto; lia.
-  - apply Forall_mupd; auto. intros m [H1 [H2 H3]].
-    destruct (Nat.ltb_spec (m_applied m) (m_recv m)); [|repeat split; auto].
+  - apply Forall_mupd; auto. intros m [G0 [G1 [G2 G3]]].
+    destruct (Nat.ltb_spec (m_queued m) (m_recv m)); repeat split; simpl; auto; lia.
+  - apply Forall_mupd; auto. intros m [G0 [G1 [G2 G3]]].
+    destruct (Nat.ltb_spec (m_applied m) (m_queued m)); [|repeat split; auto].
     destruct (nth_error (mlog cl) (m_applied m)) as [x|] eqn:E; [|repeat split; auto].
-    repeat split; simpl; auto; try lia. rewrite H3. symmetry. now apply state_at_step.
+    repeat split; simpl; auto; try lia. rewrite G3. symmetry. now apply state_at_step.
   - destruct (Nat.leb_spec j (length (mlog cl))); auto. simpl.
-    apply Forall_mupd; auto. intros m [H1 [H2 H3]]. repeat split; simpl; auto; lia.
-  - apply Forall_mupd; auto. intros m [H1 [H2 H3]]. repeat split; simpl; auto; lia.
+    apply Forall_mupd; auto. intros m [G0 [G1 [G2 G3]]]. repeat split; simpl; auto; lia.
+  - apply Forall_mupd; auto. intros m [G0 [G1 [G2 G3]]]. repeat split; simpl; auto; lia.
 Qed.
 
 Lemma crun_ok es : forall cl, Forall (member_ok (mlog cl)) (members cl) -> Forall (member_ok (mlog (crun cl es))) (members (crun cl es)).
@@ -238,16 +240,28 @@ Qed.
 
 Lemma joiner_ready_l init k es n m p :
   nth_error (members (crun (cinit k) es)) n = Some m ->
-  memN p init = false -> ready init (crun (cinit k) es) p m = true ->
+  memN p init = false -> ready init (crun (cinit k) es) p m = true -> m_applied m = m_queued m ->
   m_st m = state_at (mlog (crun (cinit k) es)) (m_applied m) /\
   exists ia, (ia < m_applied m)%nat /\ nth_error (mlog (crun (cinit k) es)) ia = Some (EAdd p).
 Proof.
-  intros Hn Hi Hr. pose proof (crun_ok es (cinit k) (cinit_ok k)) as HF.
-  rewrite Forall_forall in HF. destruct (HF m (nth_error_In _ _ Hn)) as [H1 [H2 H3]].
+  intros Hn Hi Hr Hq. pose proof (crun_ok es (cinit k) (cinit_ok k)) as HF.
+  rewrite Forall_forall in HF. destruct (HF m (nth_error_In _ _ Hn)) as [H0 [H1 [H2 H3]]].
   split; auto. unfold ready in Hr. apply andb_true_iff in Hr. destruct Hr as [Hm Ha]. apply Nat.eqb_eq in Ha.
   unfold report in Hm. apply member_was_added in Hm; auto.
   destruct (In_nth_error _ _ Hm) as [ia Hia]. apply nth_error_firstn in Hia. destruct Hia as [Hlt Hnth].
   exists ia. split; [lia|assumption].
+Qed.
+
+(* S25: ready although the FSM has applied nothing of what was queued *)
+Definition early_ready : list cevent :=
+  [CAppend (EOp (LPin (wpin 0 1))); CAppend (EAdd 1); CRecv 1; CRecv 1; CQueue 1; CQueue 1].
+Lemma joiner_ready_refuted_l :
+  exists init k es n p, memN p init = false /\
+    let cl := crun (cinit k) es in
+    ready init cl p (mget n cl) = true /\ m_st (mget n cl) = [] /\ state_at (mlog cl) (m_recv (mget n cl)) <> [].
+Proof.
+  exists [0], 2%nat, early_ready, 1%nat, 1. split; [reflexivity|]. simpl.
+  split; [reflexivity|]. split; [reflexivity|]. intros E. vm_compute in E. discriminate.
 Qed.
 
 (* every member that has received the whole log reports the configuration of the whole log *)
@@ -263,8 +277,10 @@ Lemma demo_add_rm :
 Proof. vm_compute. repeat split; reflexivity. Qed.
 
 Definition demo_join : list cevent :=
-  [CAppend (EOp (LPin (wpin 0 1))); CRecv 0; CApply 0; CAppend (EAdd 1); CRecv 0; CApply 0; CInstall 1 1; CRecv 1; CApply 1].
+  [CAppend (EOp (LPin (wpin 0 1))); CRecv 0; CQueue 0; CApply 0; CAppend (EAdd 1); CRecv 0; CQueue 0; CApply 0;
+   CInstall 1 1; CRecv 1; CQueue 1; CApply 1].
 Lemma demo_join_ready :
   let cl := crun (cinit 2) demo_join in
-  ready [0] cl 1 (mget 1 cl) = true /\ map fst (m_st (mget 1 cl)) = [0] /\ report [0] cl (mget 0 cl) = report [0] cl (mget 1 cl).
+  ready [0] cl 1 (mget 1 cl) = true /\ m_applied (mget 1 cl) = m_queued (mget 1 cl) /\ map fst (m_st (mget 1 cl)) = [0] /\
+  report [0] cl (mget 0 cl) = report [0] cl (mget 1 cl).
 Proof. vm_compute. repeat split; reflexivity. Qed.
